@@ -31,7 +31,7 @@
  "name": "key_compare",
  "props": ["C12"],
  "level": "U",
- "tier": "wip",
+ "tier": "obs",
  "harness": "h_key_compare",
  "enforce": ["key_compare"],
  "functions": ["misc/e2undo.c:key_compare"],
